@@ -3,9 +3,11 @@
 # (plus the neighbouring checks recorded in seeded/<id>/also_checked_by), undo it; writes /verif/seeded/SWEEP.txt.
 # Sequential on purpose: it edits /repo's working tree.  Do not run other checks while it runs.
 cd /verif
-OUT=/verif/seeded/SWEEP.txt
+# usage: sweep_seeds.sh [<glob of seed directories, default seeded/C*-*/> [<output file>]]
+GLOB=${1:-seeded/C*-*/}
+OUT=${2:-/verif/seeded/SWEEP.txt}
 : > $OUT
-for d in seeded/C*-*/; do
+for d in $GLOB; do
   id=$(basename $d); pid=${id%-*}
   also=""; [ -f $d/also_checked_by ] && also=$(cat $d/also_checked_by)
   if ! git -C /repo apply --check /verif/$d/patch.diff 2>/dev/null; then echo "$id DOES-NOT-APPLY" >> $OUT; continue; fi
